@@ -54,37 +54,34 @@ example : (⟨.be, 48, 3⟩ : FieldSpec).disjoint ⟨.be, 51, 13⟩ 20 = true :=
 
 /-- `Gen.Layout` (probe: where the compiler puts each member; translator: which member each one-statement accessor
     touches with which conversion; sizeof of each header) agrees with `Spec.rows` (positions from the RFCs), and each
-    hand-written model is registered at the specified position — for every row of the table. -/
-theorem layout_eq_spec : allCert = true := by decide
+    hand-written model is registered at the specified position — for every row of the table (the table is walked class
+    block by class block; `certSegs_mem` shows that the walk reaches every row). -/
+theorem layout_eq_spec : allCert = true := by decide +kernel
 
-/-- every `small_uint<n>` setter parameter has exactly the width of its field -/
-theorem small_params_match_spec : smallCert = true := by decide
+/-- every `small_uint<n>` setter parameter has exactly the width of its field, and every settable row has a parameter record -/
+theorem small_params_match_spec : smallCert = true := by decide +kernel
 
-example : 100 < rows.length ∧ Gen.simple.length + Custom.table.length = rows.length := by decide
+example : 700 < rows.length ∧ Gen.simple.length + Custom.table.length = rows.length ∧ classes.length = Gen.byClass.length := by decide +kernel
 
 /-! ## 3. every modelled accessor pair IS the specified lens — all rows, all values, all images -/
 
-theorem cert_of_mem (r : Row) (hr : r ∈ rows) : ∃ k, classOf r.cls = some k ∧ r.spec.fits k.len = true ∧ rowCert k r = true := by
+theorem cert_of_mem (r : Row) (hr : r ∈ rows) :
+    ∃ k g, classOf r.cls = some k ∧ genOf r.cls = some g ∧ k.name = r.cls ∧ rowCertIn g k r = true := by
   have h := layout_eq_spec
   unfold allCert at h
-  rw [List.all_eq_true] at h
-  have := h r hr
-  split at this
-  · rename_i k hk
-    simp only [Bool.and_eq_true] at this
-    exact ⟨k, hk, this.1.2, this.2⟩
-  · exact absurd this (by simp)
+  exact certSegs_mem rowCertIn _ _ h r hr
 
 /-- `acc_is_lens`: for every (class, field) row the code-shaped accessor model equals the lens at the protocol-specified
     position: `set v = put spec v` and `get = get spec`, for every representable value and every header image. -/
-theorem acc_is_lens (r : Row) (hr : r ∈ rows) : ∃ k, classOf r.cls = some k ∧ RowIsLens k r := by
-  obtain ⟨k, hk, _, hc⟩ := cert_of_mem r hr
-  exact ⟨k, hk, rowCert_sound k r hc⟩
+theorem acc_is_lens (r : Row) (hr : r ∈ rows) : ∃ k, classOf r.cls = some k ∧ r.spec.fits k.len = true ∧ RowIsLens k r := by
+  obtain ⟨k, g, hk, hg, hn, hc⟩ := cert_of_mem r hr
+  have := rowCertIn_sound g k r (by rw [hn]; exact hg) hc
+  exact ⟨k, hk, this.1, this.2⟩
 
 /-- the class record of a row and its accessor model are unique, so statements can name them -/
 theorem acc_eq_spec (r : Row) (hr : r ∈ rows) (k : Cls) (hk : classOf r.cls = some k) (acc : Acc) (ha : accOf k r.fld = some acc)
     (v X : Nat) (hv : r.representable v = true) : acc.set v X = r.put k.len v X ∧ acc.get X = r.get k.len X := by
-  obtain ⟨k', hk', acc', ha', h⟩ := acc_is_lens r hr
+  obtain ⟨k', hk', _, acc', ha', h⟩ := acc_is_lens r hr
   rw [hk] at hk'; cases hk'
   rw [ha] at ha'; cases ha'
   exact h v X hv
@@ -137,7 +134,7 @@ theorem serialization_diff_confined (r : Row) (hr : r ∈ rows) (k : Cls) (hk : 
   rw [only_field_bits_change r hr k hk acc ha v X i hv hi]
 
 example : ∃ r ∈ rows, ∃ k, classOf r.cls = some k ∧ (accOf k r.fld).isSome ∧ r.representable 5 = true ∧ r.fld = "fragment_offset" :=
-  ⟨r "IP" "fragment_offset" .be 51 13 .num .rw, by decide, c "IP" .be 20 [(4, 4), (16, 16), (80, 16)], by decide, by decide, by decide, rfl⟩
+  ⟨r "IP" "fragment_offset" .be 51 13 .num .rw, by decide +kernel, c "IP" .be 20 [(4, 4), (16, 16), (80, 16)], by decide +kernel, by decide +kernel, by decide, rfl⟩
 
 /-! ## 4. values that do not fit are rejected, not truncated -/
 
@@ -151,66 +148,70 @@ theorem small_uint_accepts (n v : Nat) (h : v < 2 ^ n) : smallAccepts n v = true
 /-- FULL statement of the rejection clause: every public setter rejects every value of its parameter type that the
     field cannot represent, leaving the object unchanged (the model returns `valueTooLarge` without a new image). -/
 def AllSettersRejectUnrepresentable : Prop :=
-  ∀ a ∈ Gen.args, ∀ k r, classOf a.cls = some k → rowOf a.cls a.fld = some r →
-    ∀ v X : Nat, v < 2 ^ a.dom → r.representable v = false → (setStep k a.fld v X).rejected = true
+  ∀ r ∈ rows, ∀ k a, classOf r.cls = some k → argOf r.cls r.fld = some a →
+    ∀ v X : Nat, v < 2 ^ a.dom → r.representable v = false → (setStep k r.fld v X).rejected = true
 
 /-- refutation on a concrete witness (replayed on the real code by the check: known findings KF-C15-1..4):
     `STP::msg_age(uint16_t)` accepts 256, stores `256*256 mod 2^16 = 0` and the getter returns 0 -/
 theorem all_setters_reject_unrepresentable_fails : ¬ AllSettersRejectUnrepresentable := by
   intro h
-  have := h ⟨"STP", "msg_age", 16, none⟩ (by decide) (c "STP" .be 35 []) (r "STP" "msg_age" .be 216 16 .num .rw 256)
-    (by decide) (by decide) 256 0 (by decide) (by decide)
+  have := h (r "STP" "msg_age" .be 216 16 .num .rw 256) (by decide +kernel) (c "STP" .be 35 []) ⟨"STP", "msg_age", 16, none⟩
+    (by decide +kernel) (by decide +kernel) 256 0 (by decide) (by decide)
   revert this
-  decide
+  decide +kernel
 
 /-- the excluded region, explicitly: the DNS header flag/code setters (uint8_t parameters for 1- and 4-bit fields,
-    known finding KF-C15-6) and the four STP timer setters (KF-C15-1..4) -/
+    known finding KF-C15-6), the four STP timer setters (KF-C15-1..4) and the LLC sequence number setters (uint8_t
+    parameters for the 7-bit N(S) / N(R) fields, KF-C15-7) -/
 theorem truncating_rows : truncating =
-    [("DNS", "opcode"), ("DNS", "authoritative_answer"), ("DNS", "truncated"), ("DNS", "recursion_desired"),
+    [("STP", "msg_age"), ("STP", "max_age"), ("STP", "hello_time"), ("STP", "fwd_delay"),
+     ("DNS", "opcode"), ("DNS", "authoritative_answer"), ("DNS", "truncated"), ("DNS", "recursion_desired"),
      ("DNS", "recursion_available"), ("DNS", "z"), ("DNS", "authenticated_data"), ("DNS", "checking_disabled"), ("DNS", "rcode"),
-     ("STP", "msg_age"), ("STP", "max_age"), ("STP", "hello_time"), ("STP", "fwd_delay")] := by decide
+     ("LLCInfo", "send_seq_number"), ("LLCInfo", "receive_seq_number"), ("LLCSupervisory", "receive_seq_number")] := by decide +kernel
 
-/-- the rejection clause for every setter outside the excluded region -/
-theorem all_setters_reject_unrepresentable_partial (k : Cls) (fld : String) (a : ArgInfo) (r : Row)
-    (ha : argOf k.name fld = some a) (hr : rowOf k.name fld = some r) (hrm : r ∈ rows) (hk : classOf r.cls = some k)
-    (ht : truncates a = false) (v X : Nat) (hv : v < 2 ^ a.dom) (hrep : r.representable v = false) :
-    (setStep k fld v X).rejected = true := by
+/-- the rejection clause for every setter outside the excluded region (`truncatesRow r a = false`) -/
+theorem all_setters_reject_unrepresentable_partial (r : Row) (hrm : r ∈ rows) (k : Cls) (a : ArgInfo)
+    (hk : classOf r.cls = some k) (ha : argOf r.cls r.fld = some a) (ht : truncatesRow r a = false)
+    (v X : Nat) (hv : v < 2 ^ a.dom) (hrep : r.representable v = false) :
+    (setStep k r.fld v X).rejected = true := by
   have hsc := small_params_match_spec
   unfold smallCert at hsc
-  rw [List.all_eq_true] at hsc
-  have hmem : a ∈ Gen.args := List.mem_of_find?_eq_some ha
-  have hnames : a.cls = k.name ∧ a.fld = fld := by
-    have := List.find?_some ha
-    simpa only [Bool.and_eq_true, beq_iff_eq] using this
-  have hrf : r.fld = fld := by
-    have := List.find?_some hr
-    simp only [Bool.and_eq_true, beq_iff_eq] at this
-    exact this.2
-  have hsa := hsc a hmem
-  obtain ⟨k', hk', acc, hacc, _⟩ := acc_is_lens r hrm
+  obtain ⟨k', g, hk', hg, hn, hsm⟩ := certSegs_mem smallOKIn _ _ hsc r hrm
   rw [hk] at hk'; cases hk'
-  rw [hrf] at hacc
-  have hrow : rowOf a.cls a.fld = some r := by rw [hnames.1, hnames.2]; exact hr
+  obtain ⟨k', hk', _, acc, hacc, _⟩ := acc_is_lens r hrm
+  rw [hk] at hk'; cases hk'
+  have hargIn : argOfIn g r.fld = some a := by
+    unfold argOf at ha
+    rw [hg] at ha
+    exact ha
+  unfold smallOKIn at hsm
+  rw [hargIn] at hsm
+  dsimp only at hsm
   simp only [Row.representable, decide_eq_false_iff_not, Nat.not_lt] at hrep
+  have harg : argOf k.name r.fld = some a := by rw [hn]; exact ha
   unfold setStep
-  rw [ha, hacc]
+  rw [harg, hacc]
   simp only
   have hd : ¬ (v ≥ 2 ^ a.dom) := by omega
   rw [if_neg hd]
   cases hs : a.small with
   | some n =>
-    rw [hs, hrow] at hsa
-    simp only [Bool.and_eq_true, beq_iff_eq] at hsa
-    obtain ⟨hn, hscale⟩ := hsa
-    rw [hscale, Nat.mul_one, ← hn] at hrep
+    rw [hs] at hsm
+    simp only [Bool.and_eq_true, beq_iff_eq] at hsm
+    obtain ⟨hw, hscale⟩ := hsm
+    rw [hscale, Nat.mul_one, ← hw] at hrep
     simp only [small_uint_rejects n v hrep, Bool.false_eq_true, ite_false, SetResult.rejected]
   | none =>
     exfalso
-    unfold truncates at ht
-    rw [hs, hrow] at ht
-    simp only [Bool.not_eq_false', Row.representable, decide_eq_true_eq] at ht
+    unfold truncatesRow at ht
+    rw [hs] at ht
+    simp only [Option.isNone_none, Bool.true_and, Bool.not_eq_false', Row.representable, decide_eq_true_eq] at ht
     have hle : v ≤ 2 ^ a.dom - 1 := by omega
     have := Nat.mul_le_mul_right r.scale hle
     omega
+
+example : ∃ r ∈ rows, ∃ k a, classOf r.cls = some k ∧ argOf r.cls r.fld = some a ∧ truncatesRow r a = false ∧ r.representable 16 = false :=
+  ⟨r "IP" "version" .be 0 4 .num .rw, by decide +kernel, c "IP" .be 20 [(4, 4), (16, 16), (80, 16)], ⟨"IP", "version", 8, some 4⟩,
+    by decide +kernel, by decide +kernel, by decide, by decide⟩
 
 end Tins.Props.C15
